@@ -168,6 +168,26 @@ def run(ctx):
             res.case(tuple(sorted(obs['texts'].items())), True)
             res.count('permutation-cases')
             check_set(ctx, obs, reqs, metas)
+    # SMIv1 modules: TRAP-TYPE OIDs (enterprise.0.n), OIDs under zero arcs
+    import json as _json
+    from gen import v1gen
+    from impl import pipeline as _pl
+    for i in range(12 if ctx.tier == 'quick' else 200):
+        vg = v1gen.V1Gen(random.Random(base + 9500 + i), size=6).build()
+        vt = v1gen.render(vg, 'v1')
+        res.case(('v1', vt), True)
+        res.count('smiv1-modules')
+        st, out, comp = _pl.compile_set({vg.name: vt}, backend='json', dialect='smiV1Relaxed')
+        if str(st.get(vg.name)) != 'compiled':
+            res.oracle_failures.append({'key': 'compiles', 'what': 'well-formed SMIv1 module is %s: %s' % (st.get(vg.name), getattr(st.get(vg.name), 'error', '')),
+                                        'input': {'seed': base + 9500 + i, 'texts': {vg.name: vt}}})
+            continue
+        doc = _json.loads(out[vg.name])
+        for name, t in vg.truth.items():
+            if 'oid' in t and doc.get(name, {}).get('oid') != mibgen.dotted(t['oid']):
+                res.oracle_failures.append({'key': 'json-oid', 'what': '%s has OID %s in the JSON document, the SMIv1 text defines %s' % (
+                    name, doc.get(name, {}).get('oid'), mibgen.dotted(t['oid'])), 'input': {'seed': base + 9500 + i, 'texts': {vg.name: vt}, 'dialect': 'smiV1Relaxed'}})
+                break
     compare(ctx, reqs, metas)
     res.sample({'module_text': list(obs['texts'].values())[0][:1500], 'status': obs['status']})
 
